@@ -58,6 +58,17 @@ func Harness_C03_content_round_trip() {
 	if l > 0 {
 		n, werr := h.Write(content)
 		vm.Assert("C03.write_ok", werr == nil && n == l)
+	} else {
+		// an empty file can come into being in three ways: never written (archived as it is), written with
+		// an empty buffer, or written and truncated back to nothing (both go through the content update)
+		switch vm.Choice("emptyVia", 3) {
+		case 1:
+			_, werr := h.Write([]byte{})
+			vm.Assert("C03.empty_write_ok", werr == nil)
+		case 2:
+			_, werr := h.Write([]byte("zz"))
+			vm.Assert("C03.write_then_truncate_ok", werr == nil && h.Truncate(0) == nil)
+		}
 	}
 	vm.Assert("C03.close_ok", h.Close() == nil)
 
